@@ -225,7 +225,10 @@ def check_qlm(run, pkg, weighted):
         tgt, src = ce.data["target"][2], ce.data["value"]
         gather = tgt == ci and src in (("call", ".sum", (("sub", q_final, ("sub", NL, ("tuple", (ci, ("slice", C(1), ("bin", "+", nbr_count(NL, ci), C(1)), NONE))))),), (("axis", C(0)),)),
                                        ("call", ".sum", (("sub", q_final, ("sub", NL, ("tuple", (ci, ("slice", C(1), ("bin", "+", C(1), nbr_count(NL, ci)), NONE))))),), (("axis", C(0)),)))
-        scatter = is_nbr_slice(tgt, NL, ci) and src == ("sub", q_final, ci)
+        src_core = src
+        while src_core[0] == "sub" and (src_core[2] in (NEWAX, FULL, NONE) or (src_core[2][0] == "tuple" and all(x in (NEWAX, FULL, NONE) for x in src_core[2][1]))):
+            src_core = src_core[1]          # row_i[np.newaxis, :] and the like only add broadcast axes
+        scatter = is_nbr_slice(tgt, NL, ci) and src_core == ("sub", q_final, ci)
         run.ob("R-ALG", fq, f"{v}:coarse:sum", True if gather else (False if scatter else None), "particle i gathers the local vectors of its listed neighbours (row i receives, columns 1..cn_i give)",
                key_of(ce)[:100], witness=None if gather else ("q_i is scattered onto i's neighbours: equals the gather only for symmetric neighbour relations (not for N-nearest lists)" if scatter else None),
                loc=loc_of(it, ce), sound=True)
